@@ -315,9 +315,10 @@ namespace Pistache
 
         Entry* pop() override
         {
-            auto ret = Queue<T>::pop();
-            PISTACHE_VERIF_YIELD(8, this);
-
+            // Consume the notification BEFORE looking at the queue.  Draining it
+            // afterwards could swallow the notification of an item pushed in
+            // between: the item would sit in the queue with nothing left to wake
+            // the consumer up.
             if (isBound())
             {
                 uint64_t val;
@@ -336,8 +337,9 @@ namespace Pistache
                     }
                 }
             }
+            PISTACHE_VERIF_YIELD(8, this);
 
-            return ret;
+            return Queue<T>::pop();
         }
 
         Polling::Tag tag() const
